@@ -12,7 +12,25 @@ pub struct VErr;
 #[verifier::external_body] pub struct FnParams { x: usize }
 #[verifier::external_body] pub struct ClassTy { x: usize }
 pub enum ScopeType { File, Function(Option<FnParams>), IfBlock, ElseBlock, WhileLoop, NumberLoop, Class(Option<ClassTy>) }
-pub struct Scope { pub ty: ScopeType }
+#[verifier::external_body] pub struct VarsV { x: usize }
+pub struct Scope { pub ty: ScopeType, pub variables: VarsV }
+#[verifier::external_body] pub struct VStr { x: usize }
+#[verifier::external_body] pub struct Ident { x: usize }
+// Scope::contains: the identifier of that name declared in this scope (set lookup; abstract)
+pub uninterp spec fn declared(s: Scope, name: VStr) -> Option<Ident>;
+#[verifier::external_body] pub fn scope_contains<'a>(s: &'a Scope, name: &VStr) -> (r: Option<&'a Ident>)
+    ensures r is Some <==> declared(*s, *name) is Some, r is Some ==> *r->Some_0 == declared(*s, *name)->Some_0 { unimplemented!() }
+#[verifier::external_body] pub fn opt_cloned(o: Option<&Ident>) -> (r: Option<Ident>) ensures r is Some <==> o is Some, r is Some ==> r->Some_0 == *o->Some_0 { unimplemented!() }
+// the declaration a name refers to inside the current function: the innermost scope that declares it, searching outwards up to AND
+// INCLUDING the function's own scope (its parameters and top-level locals), never beyond
+pub open spec fn lookup_in_function(scopes: Seq<Scope>, name: VStr, i: int) -> Option<Ident>
+    decreases scopes.len() - i
+{
+    if i < 0 || i >= scopes.len() { None }
+    else if declared(scopes[i], name) is Some { declared(scopes[i], name) }
+    else if scopes[i].ty is Function { None }
+    else { lookup_in_function(scopes, name, i + 1) }
+}
 
 // every block scope (if / else / loop body) is one run-time frame; the walk goes from the innermost scope outwards
 pub open spec fn is_loop_ty(t: ScopeType) -> bool { t is WhileLoop || t is NumberLoop }
@@ -55,6 +73,21 @@ decreases self.scopes@.len() - verif_k,"""),
         Rule("R3", "bail ! $a", "return Err ( VErr )", why="bail! -> return Err"),
     ]
     b = translate(f["body"], rules, log, "scopes_since_loop")
+    fl = src.fn(FILE, "has_name_been_mapped_in_function")
+    def loop2(b):
+        body = list(b["body"])
+        return ["let mut verif_j : usize = 0 ; while verif_j < self . scopes . len ( )",
+                G("""invariant_except_break lookup_in_function(self.scopes@, *dependency, 0) == lookup_in_function(self.scopes@, *dependency, verif_j as int),
+invariant verif_j <= self.scopes@.len(),
+ensures lookup_in_function(self.scopes@, *dependency, 0) is None,
+decreases self.scopes@.len() - verif_j,"""),
+                "{", f"let {text(b['x'])} = & self . scopes [ verif_j ] ;", "verif_j += 1 ;", *body, "}"]
+    bl2 = translate(fl["body"], [
+        Rule("R2", "for $x in self . scopes . iter ( ) { $$body }", loop2, count=1, why="for over ScopeStack::iter() (innermost scope first) -> indexed while over the scope sequence"),
+        Rule("R6", "scope . contains ( dependency )", "scope_contains ( scope , dependency )", why="Scope::contains: set lookup (abstract)"),
+        Rule("R1", "maybe_result . cloned ( )", "opt_cloned ( maybe_result )", why="Option<&Ident>::cloned"),
+    ], log, "has_name_been_mapped_in_function")
+    check_closed(bl2, "has_name_been_mapped_in_function")
     for t, w in ((b, "scopes_since_loop"), (b_loop, "is_loop"), (b_fn, "is_function")):
         check_closed(t, w)
     gen = header(log, f"{FILE}: AssocFileData::scopes_since_loop; {SCOPE}: Scope::is_loop, Scope::is_function") + SPEC + f"""
@@ -77,6 +110,12 @@ impl Scope {{
 // the scope stack as the sequence `ScopeStack::iter()` yields it: innermost scope first
 pub struct AssocFileData {{ pub scopes: Vec<Scope> }}
 impl AssocFileData {{
+    //@ OBL C10.lookup.in_function
+    pub fn has_name_been_mapped_in_function(&self, dependency: &VStr) -> (r: Option<Ident>)
+        ensures r == lookup_in_function(self.scopes@, *dependency, 0)
+    {{
+{render(bl2, 2)}
+    }}
     //@ OBL C01.scopes_since_loop
     pub fn scopes_since_loop(&self) -> (r: Result<usize, VErr>)
         ensures
@@ -94,6 +133,8 @@ impl AssocFileData {{
 fn main() {{}}
 """
     obls = [
+        Obl("C10.lookup.in_function", ["C10", "C02", "C03"], fn="AssocFileData::has_name_been_mapped_in_function",
+            desc="has_name_been_mapped_in_function: the innermost declaration of the name, searching outwards up to and including the function's own scope (parameters, top-level locals), not beyond -- the lookup the const / type tests of assignments and loop counters rely on"),
         Obl("C01.scope.is_loop", ["C01", "C09"], fn="Scope::is_loop", desc="a scope is a loop exactly for while / from loops"),
         Obl("C01.scope.is_function", ["C01", "C09", "C16"], fn="Scope::is_function", desc="a scope is a function boundary exactly for ScopeType::Function (any payload, incl. methods and constructors)"),
         Obl("C01.scopes_since_loop", ["C01", "C09", "C16"], fn="AssocFileData::scopes_since_loop",
@@ -102,6 +143,6 @@ fn main() {{}}
     return gen, obls, log
 
 
-UNITS = [VUnit("c01_scopes", ["C01", "C09", "C16"], "scopes_since_loop: frame count of break/continue", build)]
+UNITS = [VUnit("c01_scopes", ["C01", "C09", "C16", "C10", "C02", "C03"], "scopes_since_loop: frame count of break/continue", build)]
 UNITS[0].assumes = ["ScopeStack::iter() yields the scopes innermost first (scope.rs ScopeIter; not under contract)",
                     "that the parser pushes one scope per run-time frame (if/else/loop body) is the ScopeHandle discipline, not proved"]
